@@ -100,6 +100,7 @@ static void h_after_send(sn_conn *c) {
 		int i, parsed;
 		if (c->parsed_out >= c->out.n || rtlv_read(c->out.p + c->parsed_out, c->out.n - c->parsed_out, &t) != 0) break;
 		parsed = rp_parse_request(c->out.p + c->parsed_out, t.hdr + t.len, RP_AGGR, &r) == 0;
+		if (!parsed) { HF("request-stream-unframed", "the bytes written on the connection are not a sequence of whole requests (offset %zu of %zu)", c->parsed_out, c->out.n); W.violated = 1; }
 		if (parsed && !r.has_req && r.has_conf_req) {
 			if (!rp_request_mac_ok(&r, KEY, strlen(KEY))) { HF("request-mac", "emitted configuration request does not carry a valid MAC"); W.violated = 1; }
 			for (i = 0; i < W.nreq; i++) if (W.req[i].is_conf && !W.req[i].sent_complete && !W.req[i].returned) { W.req[i].sent_complete = 1; W.req[i].sent_time = sn_now; break; }
@@ -808,9 +809,9 @@ static void part_conf(void) {
 /* handles submitted again after they came back: a new request with a new id; what the earlier round left on the handle
  * (response object, error, raw request) must not show in the new round's result */
 static void part_readd(void) {
-	static const int ALPHA[] = {EV_ADD, EV_READD, EV_RUN, EV_REPLY_OLDEST, EV_REPLY_STATUS, EV_ERROR_PDU, EV_DELIVER_ALL, EV_PEER_CLOSE, EV_CLOCK_BIG, EV_REPLY_DUP, EV_REPLY_STALE};
+	static const int ALPHA[] = {EV_ADD, EV_READD, EV_RUN, EV_REPLY_OLDEST, EV_REPLY_STATUS, EV_ERROR_PDU, EV_DELIVER_ALL, EV_PEER_CLOSE, EV_CLOCK_BIG, EV_SEND_PARTIAL, EV_SEND_WOULDBLOCK, EV_REPLY_DUP, EV_REPLY_STALE};
 	static const int CFGI[] = {1, 0, 2};
-	int na = VF_THOROUGH ? 11 : 9, ci, a2, depth = VF_THOROUGH ? 9 : 7, e;
+	int na = VF_THOROUGH ? 13 : 11, ci, a2, depth = VF_THOROUGH ? 9 : 7, e;
 	g_keep = 1;
 	for (ci = 0; ci < (VF_THOROUGH ? 3 : 2); ci++) for (a2 = 0; a2 < na; a2++) {
 		int hist[16];
@@ -822,7 +823,7 @@ static void part_readd(void) {
 		hist[0] = EV_ADD; hist[1] = ALPHA[a2];
 		explore(&CONFIGS[CFGI[ci]], hist, 2, depth);
 		vf_count("states", n_states); vf_count("transitions", n_transitions); vf_count("traces", n_traces); vf_count("pruned_revisits", n_pruned);
-		if (ci == 0 && a2 == 2) vf_sample("readd part: cfg %d prefix A%c depth %d over {add, re-add the handle returned last, run, reply, status reply, error PDU, deliver all, peer close, clock (thorough: + duplicate / stale reply)}: %ld states, %ld transitions", CFGI[ci], EVCH[ALPHA[a2]], depth, n_states, n_transitions);
+		if (ci == 0 && a2 == 2) vf_sample("readd part: cfg %d prefix A%c depth %d over {add, re-add the handle returned last, run, reply, status reply, error PDU, deliver all, peer close, clock, partial send, would-block (thorough: + duplicate / stale reply)}: %ld states, %ld transitions", CFGI[ci], EVCH[ALPHA[a2]], depth, n_states, n_transitions);
 		vf_obs("states=%ld", n_states);
 		alpha_main();
 		vf_case_end(n_traces > 0);
